@@ -1,0 +1,21 @@
+//go:build verif
+
+// Contracts for package bandersnatch, read by /verif's govc. Comments only; compiled only under tag "verif".
+
+package bandersnatch
+
+//@ pkginv CurveParams.A == CURVE_A && CurveParams.D == CURVE_D
+
+//@ func computeY
+//@ props C06 C17
+//@ prelude field curve
+//@ ensures result == nil <==> !fp_issquare(y2(*x))
+//@ ensures result != nil ==> fresh(result) && (*result) * (*result) == y2(*x)
+//@ ensures result != nil ==> (fp_lexlargest(*result) == choose_largest || *result == fp_zero)
+
+//@ func GetPointFromX
+//@ props C06 C17
+//@ prelude field curve
+//@ ensures result == nil <==> !fp_issquare(y2(*x))
+//@ ensures result != nil ==> fresh(result) && result.X == *x && result.Y * result.Y == y2(*x)
+//@ ensures result != nil ==> (fp_lexlargest(result.Y) == choose_largest || result.Y == fp_zero)
